@@ -9,19 +9,20 @@ PROP = dict(
     assumptions=['no two distinct positions met share a 64-bit hash (Canonical compares boards by hash)'],
 )
 MANIFEST = dict(
-    text="Coq (Properties/C15.v, closed under the global context): canonical_legal_images_partial - whenever the model of symmetry.Canonical "
+    text="Coq (Properties/C15.v, closed under the global context): canonical_legal_images - whenever the model of symmetry.Canonical "
          "(real hash basis) returns cs for ms, cs has the length of ms and for every k the first k moves of cs and of ms are legal games by "
-         "Rules.v from the start position, the canonical one ending in one of the eight images of the other; proved from the loop invariant "
-         "(board i = image i of board 0; tfn = compose rots is one of the eight symmetries and maps the original position onto board 0; a "
-         "rotation is taken only from the stabiliser) over C14's rules_equivariant and C01's refinement theorem, under the explicit hypotheses "
-         "NoCollision (a board whose hash equals board 0's shows board 0's position), the C01 representation invariant of the replay boards, "
-         "coordinates within [-20,20], type <= 8, slides with >= 1 drop; a concrete 5x5 game with two rotations satisfies the hypotheses. "
-         "preferMove is a strict total order on (Y, X, Type). "
+         "Rules.v from the start position, the canonical one ending in one of the eight images of the other (so the input game is legal too); "
+         "for ANY int8 move coordinates (an accepted move is proved to start on the board, through the code's wrapping flips), type <= 8 and "
+         "slides with >= 1 drop (TransformMove panics otherwise), under the explicit NoCollision hypothesis (a board whose hash equals board 0's "
+         "shows board 0's position). Proved from the loop invariant (board i = image i of board 0; tfn = compose rots is one of the eight "
+         "symmetries and maps the original position onto board 0; a rotation is taken only from the stabiliser) over C14's rules_equivariant "
+         "and C01's preservation theorems: nothing is assumed about the boards for sizes 3..6 (at most 64 pieces); for sizes 7, 8 the exact "
+         "limit of the bit representation (no stack above 64 on the boards produced) is a hypothesis. Concrete 5x5 and 8x8 games with two "
+         "rotations satisfy the hypotheses. preferMove is a strict total order on (Y, X, Type). "
          "Execution: model of symmetry.Canonical (eight replay boards, rots prepend, compose last-applied-first, preferMove) compared with "
          "the implementation on every generated game; an independent Go oracle checks the three clauses of the property with its own symmetry maps, "
          "exhaustively for all short games on 3x3/4x4.",
-    ref='5.15', technique='Coq proof of canonical_legal_images (partial) + model/implementation differential + independent class-invariance / '
+    ref='5.15', technique='Coq proof of canonical_legal_images + model/implementation differential + independent class-invariance / '
                           'idempotence oracle (exhaustive on short games)',
-    note="Trusted: Coq kernel, extraction, transcription of Canonical. Partial: canonical_legal_images assumes (not derives) the C01 invariant of "
-         "the eight replay boards and bounds input coordinates by 20 instead of the int8 range; canonical_class_invariant and "
-         "canonical_idempotent are not proved (decided by correspondence + oracle).")
+    note="Trusted: Coq kernel, extraction, transcription of Canonical. canonical_class_invariant and canonical_idempotent are not proved "
+         "(decided by correspondence + oracle): theorem side partial in that respect.")
